@@ -722,6 +722,40 @@ func (c *Ctx) calleeStoresOnlyOnSuccess(call *ssa.Call, errv ssa.Value, b *ssa.B
 // RuleLimitZero: every ordering comparison against a load of an exported Max* int global must be
 // conjoined with a != 0 / > 0 test of the same global on the path (dominating If true-edge).
 func (c *Ctx) RuleLimitZero(fns []*ssa.Function, varName string) {
+	// the limit limits and does nothing else: a value read from it is compared (with 0, with a length) or printed in
+	// the too-long message; a reservation sized by it (Builder.Grow(MaxInputLength), make(…, MaxInputLength)), a
+	// pattern built from it, arithmetic on it make memory or behaviour follow the configuration instead of the input
+	if varName == "MaxInputLength" {
+		for _, fn := range fns {
+			for _, b := range fn.Blocks {
+				for _, in := range b.Instrs {
+					ld, ok := in.(*ssa.UnOp)
+					if !ok || ld.Op != token.MUL {
+						continue
+					}
+					g, ok := ld.X.(*ssa.Global)
+					if !ok || g.Name() != varName || ld.Referrers() == nil {
+						continue
+					}
+					for _, r := range *ld.Referrers() {
+						switch x := r.(type) {
+						case *ssa.DebugRef, *ssa.MakeInterface: // printed in the message
+						case *ssa.BinOp:
+							switch x.Op {
+							case token.EQL, token.NEQ, token.LSS, token.LEQ, token.GTR, token.GEQ:
+							default:
+								c.addc("violated", "C18.L", fn, x.Pos(), "limit use", varName+" enters an arithmetic expression: the limit is to be compared with a length, nothing else", "")
+							}
+						case *ssa.Phi, *ssa.Store:
+							// a local copy (`limit := MaxInputLength`): followed by the comparison rule through the phi
+						default:
+							c.addc("violated", "C18.L", fn, r.Pos(), "limit use", varName+" is used for something other than a comparison or the too-long message ("+r.String()+"): a reservation, a pattern or a bound built from the limit follows the configuration, not the input — a raised limit allocates (or panics) on every call", "MaxInputLength = math.MaxInt")
+						}
+					}
+				}
+			}
+		}
+	}
 	for _, fn := range fns {
 		for _, b := range fn.Blocks {
 			for _, in := range b.Instrs {
